@@ -166,7 +166,7 @@ class ExprGen:
             v = self.var('n')
             if v and r.random() < 0.6:
                 return v
-            t = r.choice(['0', '1', '2', '3', '7', '0.5', '2.5', '10', '1e+3', '12.', '100'])
+            t = r.choice(['0', '1', '2', '3', '7', '0.5', '2.5', '10', '1e+3', '12.', '100', '+2', '+0.5', '+1e+1'])
             return ('num', t, float(t))
         self.nops += 1
         if r.random() < 0.012 and any(len(n) >= 2 for n in self.vt):
@@ -177,6 +177,14 @@ class ExprGen:
             # a spreadsheet-style alias (abs, max, len ...): these exist for evaluate_expression with builtins only - in a script, and with
             # builtins off, the name is undefined wherever the call stands (an if / while condition is no exception)
             return ('call', r.choice(['abs', 'max', 'min', 'len', 'round', 'floor', 'ceil', 'sqrt', 'text', 'date']), [self.num(d - 1)])
+        if r.random() < 0.02:
+            # the left operand re-binds the global that the right operand reads: operands are evaluated left to right, so the right
+            # operand sees the new binding (unless a local of that name hides the global)
+            names = sorted(n for n, t in self.vt.items() if t == 'n' and not re.fullmatch(r'(c|ix)\d+', n))
+            if names:
+                name = r.choice(names)
+                setter = ('call', 'systemGlobalSet', [('str', ge.quote_single(name), name), self.num(d - 1)])
+                return ('bin', r.choice(['+', '-', '*', '&&', '||']), setter, ('var', name))
         if k < 0.55:
             return self.maybe_probe(('bin', r.choice(['+', '-', '*']), self.num(d - 1), self.num(d - 1)))
         if k < 0.62:
@@ -377,8 +385,8 @@ def check_alias(alias, target, args):
                 (got[1] is None) == (want[1] is None):
             return got[1] is not None
         raise Violation('%s(...) and %s(...) behave differently: %r vs %r' % (alias, target, got, want), d, 'alias:' + alias)
-    efail = [m.replace('"%s"' % alias, '"F"') for m in elog]
-    sfail = [m.replace('"%s"' % target, '"F"') for m in slog]
+    efail = [m.replace('Function "%s" failed' % alias, 'Function "F" failed') for m in elog]
+    sfail = [m.replace('Function "%s" failed' % target, 'Function "F" failed') for m in slog]
     if got[0] != want[0] or (got[0] == 'ok' and not same(got[1], want[1])) or efail != sfail:
         raise Violation('expression built-in %s%r = %r %r but library function %s gives %r %r' % (alias, tuple(args), got, elog[:1], target, want, slog[:1]),
                         d, 'alias:' + alias)
@@ -387,12 +395,86 @@ def check_alias(alias, target, args):
     return got[0] == 'ok' and not elog
 
 
+INF = float('inf')
+SPECIAL_NUMBERS = [0.0, -0.0, 0.5, -0.5, 1.0, -1.0, 2.0, -2.0, 3.0, -3.0, 0.25, 1 / 3, -1 / 3, 1e308, -1e308, INF, -INF, 5e-324, float(2 ** 53), 1e15, 1024.0,
+                   -1023.0, 0.1, 7, -7, 2, 0, 1, 1.5, -2.5, 1e-300, -1e-300]
+_NUM_TEXT = {INF: '(1e+308 * 10)', -INF: '(0 - 1e+308 * 10)'}
+
+
+def ieee(op, l, r):
+    """What IEEE 754 double arithmetic gives for two numbers (exact integer arithmetic for two host integers); 'skip' where the
+    statement leaves the result open (division by zero, % outside non-negative operands, 0 ** negative, (+-1) ** +-infinity, overflow
+    of the integer/float conversion), None where no real number exists (negative base with a fractional exponent)."""
+    try:
+        if op == '+':
+            return l + r
+        if op == '-':
+            return l - r
+        if op == '*':
+            return l * r
+        if op == '/':
+            return 'skip' if r == 0 else l / r
+        if op == '%':
+            return 'skip' if r <= 0 or l < 0 or not (math.isfinite(l) and math.isfinite(r)) else math.fmod(l, r)
+        if l == 0 and r < 0:
+            return 'skip'
+        if abs(l) == 1 and not math.isfinite(r):
+            return 'skip'
+        if l < 0 and math.isfinite(l) and math.isfinite(r) and r != int(r):
+            return None
+        if isinstance(l, int) and isinstance(r, int) and r >= 0:
+            return l ** r
+        return math.pow(l, r)
+    except (OverflowError, ValueError, ZeroDivisionError):
+        return 'skip'
+
+
+def check_numeric(op, l, r):
+    want = ieee(op, l, r)
+    if isinstance(want, str):
+        return want
+    d = {'kind': 'numeric', 'op': op, 'l': enc(l), 'r': enc(r)}
+
+    def lit(v):
+        if v in _NUM_TEXT:
+            return _NUM_TEXT[v]
+        t = repr(v).replace('e-', 'E').replace('e+', 'e').replace('e', 'e+').replace('E', 'e-')
+        return '(0 - %s)' % t[1:] if t.startswith('-') else t
+    text = '%s %s %s' % (lit(l), op, lit(r))
+    routes = [('variables', 'x %s y' % op, {'x': l, 'y': r}), ('literals', text, {})]
+    for route, src, g in routes:
+        if route == 'literals' and (str(l) == '-0.0' or str(r) == '-0.0'):
+            continue
+        for how in ('expression', 'script'):
+            try:
+                if how == 'expression':
+                    got = impl.bs.evaluate_expression(impl.bs.parse_expression(src), {'globals': dict(g)})
+                else:
+                    got = impl.bs.execute_script(impl.bs.parse_script('return ' + src), {'globals': dict(g)})
+            except Exception as e:  # pylint: disable=broad-except
+                raise Violation('%s (%s, %s) raised %s' % (src, route, how, type(e).__name__), d, 'numeric-raises:' + op) from e
+            if want is None:
+                ok = got is None
+            elif got is None or isinstance(got, bool) or not isinstance(got, (int, float)):
+                ok = False
+            elif isinstance(want, float) and math.isnan(want):
+                ok = isinstance(got, float) and math.isnan(got)
+            elif isinstance(got, float) and math.isnan(got):
+                ok = False
+            else:
+                ok = got == want or (math.isfinite(want) and math.isfinite(got) and abs(got - want) <= 1e-12 * abs(want))
+            if not ok:
+                raise Violation('%s with x=%r y=%r (%s, %s) = %r, double arithmetic gives %r' % (src, l, r, route, how, got, want), d, 'numeric:' + op)
+    return want
+
+
 def plan(tier):
     parts = 8 if tier == 'quick' else 16
     specs = [{'kind': 'matrix', 'part': i, 'parts': parts} for i in range(parts)]
     k = 6 if tier == 'quick' else 16
     specs += [{'kind': 'trees', 'n': 6000 if tier == 'quick' else 60000, 'k': i} for i in range(k)]
     specs += [{'kind': 'dtarith', 'n': 3000 if tier == 'quick' else 40000, 'k': i} for i in range(1 if tier == 'quick' else 4)]
+    specs += [{'kind': 'numeric'}]
     specs += [{'kind': 'aliases', 'n': 4000 if tier == 'quick' else 30000, 'k': i} for i in range(2 if tier == 'quick' else 8)]
     return specs
 
@@ -429,6 +511,23 @@ def run_shard(ctx, spec):
                      ['matrix:%s' % op, 'cell-null' if expected != 'violation' and expected[1] is None else 'cell-value'],
                      {'text': text, 'x': x, 'y': g.get('y')})
         ctx.exhaustive['operator x 27 x 27 operand matrix'] = True
+        return
+    if spec['kind'] == 'numeric':
+        for op in ('+', '-', '*', '/', '%', '**'):
+            for l in SPECIAL_NUMBERS:
+                for r in SPECIAL_NUMBERS:
+                    try:
+                        want = check_numeric(op, l, r)
+                    except Violation as v:
+                        ctx.violation(v)
+                        want = 0
+                    if isinstance(want, str):
+                        ctx.discard('numeric-result-left-open')
+                        continue
+                    finite = math.isfinite(l) and math.isfinite(r)
+                    ctx.case(digest(['numeric', op, repr(l), repr(r)]), not finite or want is None or (isinstance(want, float) and not math.isfinite(want)),
+                             ['numeric:' + op, 'finite-operands' if finite else 'non-finite-operand'], {'text': 'x %s y' % op, 'x': l, 'y': r})
+        ctx.exhaustive['6 arithmetic operators x %d x %d special numbers' % (len(SPECIAL_NUMBERS), len(SPECIAL_NUMBERS))] = True
         return
     if spec['kind'] == 'trees':
         def prop(seed, size):
@@ -575,6 +674,9 @@ def _parse_to_tree(m):
 def replay(detail):
     if detail.get('kind') == 'callee':
         check_callee_lookup(detail['form'], detail['route'])
+        return
+    if detail.get('kind') == 'numeric':
+        check_numeric(detail['op'], dec(detail['l']), dec(detail['r']))
         return
     if detail.get('kind') == 'alias':
         check_alias(detail['alias'], detail['target'], dec(detail['args'], {'host_cmp': None}))
